@@ -1,4 +1,5 @@
 import Ruint.Lemmas.ModularInv
+import Ruint.Lemmas.ModularLimbs
 
 /-!
 # C10 — modular arithmetic returns the canonical residue for every modulus
@@ -46,6 +47,37 @@ theorem pow_mod_spec (bits a e m : ℕ) (ha : a < 2 ^ bits) (he : e < 2 ^ bits) 
   refine ⟨h, fun hpos => ?_⟩
   rw [h]; simp only [show m ≠ 0 by omega, if_false]; exact Nat.mod_lt _ hpos
 
+/-! ## limb level (L1): the models the driver runs for `reduce_mod`, `add_mod`, `mul_mod`
+
+`Ruint.ModularL.*` (file `Model/ModularLimbs.lean`) work on limb lists and call the limb-level models of the callees:
+`algorithms::cmp`, `algorithms::div` through `%=`, `overflowing_add`, wrapping `-=`, `algorithms::addmul` into the
+`nlimbs(2·BITS)`-limb buffer and `algorithms::div` of that buffer by the `LIMBS`-limb modulus (the 2N-by-N shape that
+no other entry point uses — `Ruint.C14.div_contract` covers every pair of slice lengths). -/
+
+/-- `reduce_mod` on limbs: no panic, canonical result, `a mod m` (`0` for `m = 0`). -/
+theorem reduce_mod_limbs_spec (bits : ℕ) (a m : List ℕ) (ha : Canon bits a) (hm : Canon bits m) :
+    ∃ r, ModularL.reduceMod bits a m = some r ∧ Canon bits r
+      ∧ val r = (if val m = 0 then 0 else val a % val m) := by
+  obtain ⟨r, e, c, v⟩ := ModularL.reduceMod_refines bits a m ha hm
+  exact ⟨r, e, c, by rw [v, reduceMod_spec]⟩
+
+/-- `add_mod` on limbs: no panic, canonical result, `(a + b) mod m` (`0` for `m = 0`). -/
+theorem add_mod_limbs_spec (bits : ℕ) (a b m : List ℕ) (ha : Canon bits a) (hb : Canon bits b)
+    (hm : Canon bits m) :
+    ∃ r, ModularL.addMod bits a b m = some r ∧ Canon bits r
+      ∧ val r = (if val m = 0 then 0 else (val a + val b) % val m) := by
+  obtain ⟨r, e, c, v⟩ := ModularL.addMod_refines bits a b m ha hb hm
+  exact ⟨r, e, c, by rw [v, addMod_spec bits _ _ _ hm.val_lt]⟩
+
+/-- `mul_mod` on limbs: no panic (`debug_assert!(!overflow)` holds, the divisor is non-zero), canonical result,
+    `(a · b) mod m` (`0` for `m = 0`). -/
+theorem mul_mod_limbs_spec (bits : ℕ) (a b m : List ℕ) (ha : Canon bits a) (hb : Canon bits b)
+    (hm : Canon bits m) :
+    ∃ r, ModularL.mulMod bits a b m = some r ∧ Canon bits r
+      ∧ val r = (if val m = 0 then 0 else (val a * val b) % val m) := by
+  obtain ⟨r, e, c, v⟩ := ModularL.mulMod_refines bits a b m ha hb hm
+  exact ⟨r, e, c, by rw [v, (mulMod_spec bits _ _ _ ha.val_lt hb.val_lt).1]⟩
+
 /-- `inv_mod(a, m)`: never panics; returns `Some(x)` **exactly when** `m ≥ 2 ∧ gcd(a, m) = 1`, and then `x < m` and
     `a·x ≡ 1 (mod m)`; `None` otherwise (`m = 0`, `m = 1`, `a ≡ 0`, common factor). `a` need not be reduced.
     The matrices are those of the model of `LehmerMatrix::from`, whose contract is a theorem (C12), so nothing is
@@ -91,5 +123,11 @@ example : mulMod 65 0x1ffffffffffffffff 0x1fffffffffffffffe 0x1fffffffffffffffd 
 example : powMod 65 3 0x1ffffffffffffffff 0x1fffffffffffffffd = 0x26ef2daade6ed811 := by decide +kernel
 example : invMod 65 3 0x1fffffffffffffffd = some (some 0xaaaaaaaaaaaaaaaa) := by decide +kernel
 example : invMod 64 4 6 = some none := by decide +kernel
+/-- limb level: a 4-limb product divided by a 2-limb modulus with an un-normalised top limb (Knuth is not reached
+    for two limbs: `div_nx2`); and by a one-limb modulus padded with a zero limb. -/
+example : ModularL.mulMod 65 [0xffffffffffffffff, 1] [0xfffffffffffffffe, 1] [0xfffffffffffffffd, 1] = some [2, 0] := by
+  decide +kernel
+example : ModularL.mulMod 65 [0xffffffffffffffff, 1] [0xfffffffffffffffe, 1] [7, 0] = some [6, 0] := by
+  decide +kernel
 
 end Ruint.C10
